@@ -2310,4 +2310,243 @@ theorem first_child_for_byte_flat_spec (lang : Lang) (fuel : Nat) (self : NodeRe
 
 example : (enumRefs C02.demoLang pvRoot.t pvRoot.start).map (·.id) = [976, 1984, 1992, 992] := by decide
 
+/-! ### Zero-width targets: `ts_node_child_with_descendant` / `ts_node_parent` of an EMPTY node -/
+
+/-- The loop body for an EMPTY descendant at byte `x` (`is_empty = true`, `start = end = x`). -/
+theorem inner_cons_empty (lang : Lang) (fuel dId x : Nat) (rc : RawChild) (rest : List RawChild) :
+    childWithDescendant.inner lang dId x x fuel true (rc :: rest) =
+      (if rc.node.startByte > x then some (none, none)
+       else if rc.node.id == dId then some (some rc.node, none)
+       else
+         match (if decide (rc.posAfter.bytes ≥ x) && decide (rc.node.childCount > 0) then
+                  (match childWithDescendant lang fuel rc.node dId x x with
+                   | some child => some (if rc.node.relevant lang true then rc.node else child)
+                   | none => none)
+                else none) with
+         | some r => some (some r, none)
+         | none =>
+           if decide (rc.posAfter.bytes ≤ x) || rc.node.childCount == 0
+           then childWithDescendant.inner lang dId x x fuel true rest else some (none, some rc.node)) := by
+  rw [inner_cons]
+  rfl
+
+theorem cwd_unfold_empty (lang : Lang) (fuel : Nat) (self : NodeRef) (dId x : Nat) :
+    childWithDescendant lang (fuel + 1) self dId x x =
+      (match childWithDescendant.inner lang dId x x fuel true (rawChildren lang self) with
+       | some (some r, _) => some r
+       | some (none, some s) => if s.relevant lang true then some s else childWithDescendant lang fuel s dId x x
+       | _ => none) := by
+  rw [cwd_unfold, beq_self_eq_true]
+  try rfl
+
+/-- Inside a subtree that ends at or before `x` and does not contain the slot id, the search for an
+empty node at `x` finds nothing (every child ends at or before `x`, so the scan runs to the end). -/
+theorem cwd_empty_none (lang : Lang) (dId x : Nat) : ∀ (fuel : Nat) (self : NodeRef), Sized self.t → self.endByte ≤ x →
+    noIdIn dId self.t = true → childWithDescendant lang fuel self dId x x = none
+  | 0, _, _, _, _ => by rw [childWithDescendant]
+  | f + 1, self, hs, hend, hid => by
+    rw [cwd_unfold_empty]
+    have hidL : noIdInL dId self.t.data.addr self.t.kids.length self.t.kids 0 = true := by
+      obtain ⟨t, al, id, st⟩ := self
+      obtain ⟨d, kids⟩ := t
+      unfold noIdIn at hid
+      simpa [data_mk, kids_mk] using hid
+    have key : ∀ (L : List RawChild), (∀ rc ∈ L, rc ∈ rawChildren lang self) →
+        childWithDescendant.inner lang dId x x f true L = some (none, none) := by
+      intro L
+      induction L with
+      | nil => intro _; exact inner_nil lang f dId x x true
+      | cons rc rest ih =>
+        intro hmem
+        have hrc := hmem rc (by simp)
+        obtain ⟨j, hj⟩ := List.mem_iff_getElem?.mp hrc
+        have hn := raw_child_nested lang self hs j rc hj
+        have hj2 := hj
+        simp only [rawChildren] at hj2
+        have hi := go_ids lang self _ _ dId _ _ _ 0 hidL j rc hj2
+        rw [inner_cons_empty]
+        by_cases h1 : rc.node.startByte > x
+        · simp [h1]
+        · have h2 : (rc.node.id == dId) = false := by simpa using hi.1
+          have hrec := cwd_empty_none lang dId x f rc.node hn.2.2.2 (by omega) hi.2
+          have h3 : decide (rc.posAfter.bytes ≤ x) = true := by simp; omega
+          simp only [h1, if_false, h2, hrec, h3, Bool.true_or, if_true, Bool.false_eq_true]
+          have : (if (decide (rc.posAfter.bytes ≥ x) && decide (rc.node.childCount > 0)) = true then (none : Option NodeRef) else none) = none := by
+            split <;> rfl
+          simp only [this]
+          exact ih (fun r hr => hmem r (by simp [hr]))
+    rw [key _ (fun _ h => h)]
+
+
+theorem firstRelevantOnPath_some (lang : Lang) (d : NodeRef) : ∀ (p : List Nat) (n : NodeRef), p ≠ [] →
+    nodeAt lang n p = some d → ∃ r, firstRelevantOnPath lang n p = some r
+  | [], _, h, _ => absurd rfl h
+  | k :: rest, n, _, hat => by
+    simp only [nodeAt] at hat
+    simp only [firstRelevantOnPath]
+    cases hk : rawChildAt lang n k with
+    | none => simp [hk] at hat
+    | some c =>
+      simp only [hk] at hat ⊢
+      by_cases hc : (rest.isEmpty || c.relevant lang true) = true
+      · exact ⟨c, by simp [hc]⟩
+      · simp only [hc, if_false, Bool.false_eq_true]
+        have : rest ≠ [] := by intro h0; subst h0; simp at hc
+        exact firstRelevantOnPath_some lang d rest c this hat
+
+/-- Children before the path's child are passed over when the target is empty, provided the
+searches inside them find nothing. -/
+theorem inner_skip_empty (lang : Lang) (fuel dId x : Nat) :
+    ∀ (k : Nat) (L : List RawChild), (∀ i ri, i < k → L[i]? = some ri →
+      ri.node.id ≠ dId ∧ ri.posAfter.bytes ≤ x ∧ ri.node.startByte ≤ x ∧
+      childWithDescendant lang fuel ri.node dId x x = none) →
+    childWithDescendant.inner lang dId x x fuel true L = childWithDescendant.inner lang dId x x fuel true (L.drop k)
+  | 0, _, _ => by simp
+  | k + 1, [], _ => by simp
+  | k + 1, r0 :: rest, h => by
+    have h0 := h 0 r0 (by omega) (by simp)
+    rw [inner_cons_empty]
+    have h1 : ¬ (r0.node.startByte > x) := by omega
+    have h2 : (r0.node.id == dId) = false := by simpa using h0.1
+    have h3 : decide (r0.posAfter.bytes ≤ x) = true := by simp; omega
+    simp only [h1, if_false, h2, h0.2.2.2, h3, Bool.true_or, if_true, Bool.false_eq_true, List.drop_succ_cons]
+    have : (if (decide (r0.posAfter.bytes ≥ x) && decide (r0.node.childCount > 0)) = true then (none : Option NodeRef) else none) = none := by
+      split <;> rfl
+    simp only [this]
+    exact inner_skip_empty lang fuel dId x k rest (fun i ri hi hri => h (i + 1) ri (by omega) (by simpa using hri))
+
+/-- **child_with_descendant_spec_empty.**  The zero-width case of `child_with_descendant_spec_partial`:
+for a relevant EMPTY node `d` the same conclusion holds under the stronger id hypothesis `psPathOK`
+(the slot id of `d` occurs neither on the path nor anywhere INSIDE the earlier siblings along it):
+the C code also searches the subtrees of earlier siblings that end where `d` lies, and the only thing
+that can stop it there is an id match. -/
+theorem child_with_descendant_spec_empty (lang : Lang) :
+    ∀ (path : List Nat) (fuel : Nat) (self d : NodeRef) (ps : Option Nat), path ≠ [] → path.length ≤ fuel →
+    Summarized lang self.t → shapeOK ps self.t = true → nodeAt lang self path = some d → d.relevant lang true = true →
+    d.startByte = d.endByte → psPathOK lang d self path = true →
+    childWithDescendant lang fuel self d.id d.startByte d.endByte = firstRelevantOnPath lang self path
+  | [], _, _, _, _, h, _, _, _, _, _, _, _ => absurd rfl h
+  | k :: rest, 0, _, _, _, _, hf, _, _, _, _, _, _ => by simp at hf
+  | k :: rest, f + 1, self, d, ps, _, hf, hsum, hsh, hat, hdrel, hemp, hok => by
+    have hs := sized_of_summarized lang self.t hsum
+    obtain ⟨rc, hk, hat'⟩ := nodeAt_cons lang self d k rest hat
+    simp only [psPathOK, hk, Bool.and_eq_true] at hok
+    simp only [firstRelevantOnPath, rawChildAt, hk, Option.map_some]
+    have hn := raw_child_nested lang self hs k rc hk
+    have hd := nodeAt_nested lang rest rc.node d hn.2.2.2 hat'
+    rw [← hemp, cwd_unfold_empty]
+    -- the earlier siblings
+    have hL : (rawChildren lang self).take k =
+        rawChildren.go lang self self.t.data.productionId self.t.kids.length (self.t.kids.take k) self.start 0 0 := by
+      simp only [rawChildren]; exact go_take lang self _ _ _ _ _ _ k
+    have hearly : ∀ i ri, i < k → (rawChildren lang self)[i]? = some ri →
+        ri.node.id ≠ d.id ∧ ri.posAfter.bytes ≤ d.startByte ∧ ri.node.startByte ≤ d.startByte ∧
+        childWithDescendant lang f ri.node d.id d.startByte d.startByte = none := by
+      intro i ri hi hri
+      have ho := raw_ordered lang self i k ri rc hi hri hk
+      have hni := raw_child_nested lang self hs i ri hri
+      have hti : ((rawChildren lang self).take k)[i]? = some ri := by rw [List.getElem?_take]; simp [hi, hri]
+      rw [hL] at hti
+      have hids := go_ids lang self _ _ d.id _ _ _ 0 hok.1 i ri hti
+      exact ⟨hids.1, by omega, by omega, cwd_empty_none lang d.id d.startByte f ri.node hni.2.2.2 (by omega) hids.2⟩
+    rw [inner_skip_empty lang f d.id d.startByte k _ hearly, drop_eq_cons _ k rc hk, inner_cons_empty]
+    have h1 : ¬ (rc.node.startByte > d.startByte) := by omega
+    simp only [h1, if_false]
+    cases rest with
+    | nil =>
+      simp only [nodeAt, Option.some.injEq] at hat'
+      subst hat'
+      simp
+    | cons k' rest' =>
+      simp only [List.isEmpty_cons, Bool.false_or, Bool.and_eq_true, bne_iff_ne, ne_eq] at hok ⊢
+      have h2 : (rc.node.id == d.id) = false := by simpa using hok.2.1
+      have hk2 := hk
+      simp only [rawChildren] at hk2
+      have hcmem : rc.node.t ∈ self.t.kids := List.mem_of_getElem? (go_elem lang _ _ _ _ _ _ _ k rc hk2).2.2
+      have hsc := summarized_of_mem lang _ rc.node.t (summarizedL_kids lang self.t hsum) hcmem
+      have hshc := shapeOK_of_mem _ _ rc.node.t (shapeOKL_kids ps self.t hsh) hcmem
+      have hcc := ancestor_child_count_pos lang d rc.node (k' :: rest') _ hdrel (by simp) hat' hsc hshc
+      have ih := child_with_descendant_spec_empty lang (k' :: rest') f rc.node d _ (by simp)
+        (by simp at hf ⊢; omega) hsc hshc hat' hdrel hemp hok.2.2
+      rw [← hemp] at ih
+      obtain ⟨r, hr⟩ := firstRelevantOnPath_some lang d (k' :: rest') rc.node (by simp) hat'
+      have h3 : (decide (rc.posAfter.bytes ≥ d.startByte) && decide (rc.node.childCount > 0)) = true := by
+        simp; omega
+      simp only [h2, Bool.false_eq_true, if_false, h3, if_true, ih, hr]
+      have h3' : d.startByte ≤ rc.posAfter.bytes ∧ 0 < rc.node.childCount := ⟨by omega, hcc⟩
+      cases hrel : rc.node.relevant lang true <;> simp [h3']
+
+
+theorem relSplit_inv_ps (lang : Lang) (d : NodeRef) : ∀ (p : List Nat) (n c : NodeRef) (rest : List Nat) (ps : Option Nat),
+    relSplit lang n p = some (c, rest) → nodeAt lang n p = some d → psPathOK lang d n p = true →
+    Summarized lang n.t → shapeOK ps n.t = true →
+    nodeAt lang c rest = some d ∧ (rest ≠ [] → c.id ≠ d.id ∧ psPathOK lang d c rest = true) ∧
+      (Summarized lang c.t ∧ ∃ ps', shapeOK ps' c.t = true) ∧ rest.length < p.length
+  | [], _, _, _, _, h, _, _, _, _ => by simp [relSplit] at h
+  | k :: tl, n, c, rest, ps, h, hat, hok, hs, hsh => by
+    obtain ⟨rc, hk, hat'⟩ := nodeAt_cons lang n d k tl hat
+    simp only [relSplit, rawChildAt, hk, Option.map_some] at h
+    simp only [psPathOK, hk, Bool.and_eq_true] at hok
+    have hk2 := hk
+    simp only [rawChildren] at hk2
+    have hmem : rc.node.t ∈ n.t.kids := List.mem_of_getElem? (go_elem lang _ _ _ _ _ _ _ k rc hk2).2.2
+    have hsz : Summarized lang rc.node.t ∧ shapeOK (some n.t.data.symbol) rc.node.t = true :=
+      ⟨summarized_of_mem lang _ _ (summarizedL_kids lang n.t hs) hmem, shapeOK_of_mem _ _ _ (shapeOKL_kids ps n.t hsh) hmem⟩
+    by_cases hc : (tl.isEmpty || rc.node.relevant lang true) = true
+    · simp only [hc, if_true, Option.some.injEq, Prod.mk.injEq] at h
+      obtain ⟨h1, h2⟩ := h
+      subst h1; subst h2
+      refine ⟨hat', ?_, ⟨hsz.1, _, hsz.2⟩, by simp⟩
+      intro hne
+      have : tl.isEmpty = false := by cases tl <;> simp_all
+      simp only [this, Bool.false_or, Bool.and_eq_true, bne_iff_ne, ne_eq] at hok
+      exact ⟨hok.2.1, hok.2.2⟩
+    · simp only [hc, if_false, Bool.false_eq_true] at h
+      have : tl.isEmpty = false := by cases tl <;> simp_all
+      simp only [this, Bool.false_or, Bool.and_eq_true, bne_iff_ne, ne_eq] at hok
+      have ih := relSplit_inv_ps lang d tl rc.node c rest _ h hat' hok.2.2 hsz.1 hsz.2
+      exact ⟨ih.1, ih.2.1, ih.2.2.1, by simp; omega⟩
+
+/-- **parent_spec_empty.**  `ts_node_parent` of a relevant EMPTY node: the nearest relevant proper
+ancestor on the path, under `psPathOK` (slot id of `d` unique on the path and inside the earlier
+siblings along it).  With `parent_spec_partial` this covers every relevant node. -/
+theorem parent_spec_empty (lang : Lang) (fuel : Nat) (root d : NodeRef) (path : List Nat) (ps : Option Nat)
+    (hp : path ≠ []) (hf : path.length ≤ fuel) (hs : Summarized lang root.t) (hsh : shapeOK ps root.t = true)
+    (hat : nodeAt lang root path = some d) (hrel : d.relevant lang true = true)
+    (hemp : d.startByte = d.endByte) (hroot : root.id ≠ d.id) (hok : psPathOK lang d root path = true) :
+    nodeParent lang fuel root d = some (parentOnPath lang root root path) := by
+  have key : ∀ (f : Nat) (p : List Nat) (n : NodeRef) (ps : Option Nat), p ≠ [] → p.length ≤ f → p.length ≤ fuel →
+      Summarized lang n.t → shapeOK ps n.t = true → nodeAt lang n p = some d → psPathOK lang d n p = true →
+      nodeParent.go lang fuel d f n = parentOnPath lang n n p := by
+    intro f
+    induction f with
+    | zero => intro p n _ hp hf; cases p <;> simp_all
+    | succ f ih =>
+      intro p n ps hp hf hfu hs hsh hat hok
+      rw [nodeParent.go, child_with_descendant_spec_empty lang p fuel n d ps hp hfu hs hsh hat hrel hemp hok,
+        firstRelevant_eq_split, parentOnPath_split]
+      cases hsp : relSplit lang n p with
+      | none => rfl
+      | some cr =>
+        obtain ⟨c, rest⟩ := cr
+        have hi := relSplit_inv_ps lang d p n c rest ps hsp hat hok hs hsh
+        simp only [Option.map_some]
+        cases rest with
+        | nil =>
+          have : c = d := by simpa [nodeAt] using hi.1
+          subst this
+          simp
+        | cons k' rest' =>
+          have h2 := hi.2.1 (by simp)
+          have : (c.id == d.id) = false := by simpa using h2.1
+          simp only [this, Bool.false_eq_true, if_false, List.isEmpty_cons]
+          obtain ⟨hsc, ps', hshc⟩ := hi.2.2.1
+          exact ih (k' :: rest') c ps' (by simp) (by have := hi.2.2.2; omega) (by have := hi.2.2.2; omega)
+            hsc hshc hi.1 h2.2
+  unfold nodeParent
+  have : (root.id == d.id) = false := by simpa using hroot
+  simp only [this, Bool.false_eq_true, if_false]
+  rw [key fuel path root ps hp hf hf hs hsh hat hok]
+
+
 end TsVerif.C06
